@@ -309,3 +309,126 @@ def decorator_names(func: Func) -> List[str]:
         else:
             out.append(dotted(d) or unparse(d))
     return out
+
+
+def collected_into(fv: "FuncView", name: str):
+    """How the local list `name` gets its elements, whatever the idiom: `name.append(E)` inside loops, or
+    `name = [E for x in IT if C]`.  Returns [(element text, iterable text, frozenset of (condition, outcome))], the
+    conditions being the control conditions of the statement plus, for a comprehension, its filters."""
+    out = []
+    for c in fv.calls("append"):
+        if unparse(c.func.value) != name or len(c.args) != 1:
+            continue
+        loops = fv.enclosing_loops(c)
+        it = unparse(loops[-1].iter) if loops else None
+        out.append((unparse(c.args[0]), it, frozenset(fv.conditions(c))))
+    for n in walk_no_nested(fv.func.node):
+        if isinstance(n, ast.Assign) and len(n.targets) == 1 and unparse(n.targets[0]) == name and isinstance(n.value, ast.ListComp) and len(n.value.generators) == 1:
+            g = n.value.generators[0]
+            conds = set(fv.conditions(n))
+            for i in g.ifs:
+                conds.add(positive_form(i, "T"))
+            out.append((unparse(n.value.elt), unparse(g.iter), frozenset(conds)))
+    return out
+
+
+def inlined_view(repo, f, max_stmts: int = 12, focus=None) -> "FuncView":
+    """A view of `f` in which calls of small helpers defined next to it (functions of its module, methods of its class)
+    are replaced by the helpers' bodies (sa/normal.py, R12) - so that a rule about what `f` does on its paths is not
+    fooled by code having moved into a helper."""
+    import copy
+
+    from . import normal
+    from .model import Func
+
+    helpers = {}
+    for g in f.module.funcs.values():
+        if g is f or g.parent is not None:
+            continue
+        n_st = sum(1 for x in ast.walk(g.node) if isinstance(x, ast.stmt)) - 1
+        if n_st > max_stmts or any(isinstance(x, (ast.Yield, ast.YieldFrom)) for x in ast.walk(g.node)):
+            continue
+        if g.cls is None:
+            helpers[g.name] = g.node
+        elif f.cls is not None and g.cls is f.cls:
+            d = copy.deepcopy(g.node)
+            d._is_method = True
+            helpers[g.name] = d
+    used = {c.func.attr if isinstance(c.func, ast.Attribute) else getattr(c.func, "id", None) for c in ast.walk(f.node) if isinstance(c, ast.Call)}
+    helpers = {k: v for k, v in helpers.items() if k in used and k != f.name}
+    has_ifexp = any(isinstance(x, ast.IfExp) for x in ast.walk(f.node))
+    if not helpers and not has_ifexp:
+        return FuncView(f)
+    node = copy.deepcopy(f.node)
+    normal._fresh = __import__("itertools").count()
+    if focus is None:
+        normal._expand_ifexp(node)  # `x = A if c else B` becomes a branch of the graph
+    else:
+        # only the conditional expressions that feed the targets the rule looks at (the others would only multiply paths)
+        keep = {}
+        for st in ast.walk(node):
+            if isinstance(st, ast.Assign) and isinstance(st.value, ast.IfExp) and not any(unparse(t) in focus for t in st.targets):
+                keep[id(st)] = st.value
+                st.value = ast.Name(id="__opaque_ifexp__", ctx=ast.Load())
+        normal._expand_ifexp(node)
+        for st in ast.walk(node):
+            if id(st) in keep:
+                st.value = keep[id(st)]
+    if helpers:
+        normal._inline_helpers(node, helpers, f.cls is not None)
+        normal._expand_ifexp(node)
+    if focus is not None:
+        _slice(node, set(focus))
+    ast.fix_missing_locations(node)
+    for n in ast.walk(node):
+        if not hasattr(n, "lineno"):
+            n.lineno = f.node.lineno
+    return FuncView(Func(f.module, f.qualname, node, f.cls, f.parent))
+
+
+def _slice(fn, focus):
+    """Keeps the statements that (transitively) feed the `focus` targets - assignments to them or to names their values
+    read, and the compound statements around those; everything else (guards that raise, unrelated bookkeeping) is dropped.
+    For rules that ask what a path stores into the focus targets and under which of *their* conditions."""
+    rel = set(focus)
+    changed = True
+    while changed:
+        changed = False
+        for st in ast.walk(fn):
+            if isinstance(st, (ast.Assign, ast.AugAssign, ast.AnnAssign)):
+                tg = st.targets if isinstance(st, ast.Assign) else [st.target]
+                names = {unparse(t) for t in tg} | {unparse(e) for t in tg if isinstance(t, (ast.Tuple, ast.List)) for e in t.elts}
+                if names & rel and st.value is not None:
+                    for x in ast.walk(st.value):
+                        if isinstance(x, (ast.Name, ast.Attribute)) and unparse(x) not in rel and not (isinstance(x, ast.Name) and x.id in ("self", "cls")):
+                            if isinstance(x, ast.Name) or unparse(x).startswith("self."):
+                                rel.add(unparse(x))
+                                changed = True
+
+    def keep(st) -> bool:
+        if isinstance(st, (ast.Assign, ast.AugAssign, ast.AnnAssign)):
+            tg = st.targets if isinstance(st, ast.Assign) else [st.target]
+            names = {unparse(t) for t in tg} | {unparse(e) for t in tg if isinstance(t, (ast.Tuple, ast.List)) for e in t.elts}
+            return bool(names & rel)
+        if isinstance(st, ast.Return):
+            return "return" in focus
+        if isinstance(st, (ast.If, ast.For, ast.AsyncFor, ast.While, ast.Try, ast.With, ast.AsyncWith)):
+            return any(keep(x) for x in ast.walk(st) if isinstance(x, ast.stmt) and x is not st)
+        return False
+
+    def prune(stmts):
+        out = []
+        for st in stmts:
+            if not keep(st):
+                continue
+            for fld in ("body", "orelse", "finalbody"):
+                v = getattr(st, fld, None)
+                if isinstance(v, list) and v and isinstance(v[0], ast.stmt):
+                    nv = prune(v)
+                    setattr(st, fld, nv if nv or fld != "body" else [ast.Pass()])
+            for h in getattr(st, "handlers", []) or []:
+                h.body = prune(h.body) or [ast.Pass()]
+            out.append(st)
+        return out
+
+    fn.body = prune(fn.body) or [ast.Pass()]
